@@ -7,9 +7,9 @@ import ast
 from z3 import *
 from pyvc.core import *
 
-PROPS = ['C02', 'C10', 'C16']
+PROPS = ['C01', 'C02', 'C03', 'C05', 'C06', 'C07', 'C10', 'C12', 'C15', 'C16']          # every property whose units inline maybe_awaitable as 'await the value iff it is awaitable'
 REL = 'taskiq/utils.py'
-TRUSTED = ["inspect.isawaitable(x) is the Python predicate 'x can be awaited' (coroutines, futures, objects with __await__)"]
+TRUSTED = ["inspect.isawaitable(x) is the Python predicate 'x can be awaited' (coroutines, futures, objects with __await__); inspect.iscoroutine(x) / asyncio.iscoroutine(x) hold for native coroutine objects only (a strict subset)"]
 
 
 def generate(src):
@@ -19,7 +19,9 @@ def generate(src):
         setG(s, awaits=s.ghost['awaits'] + 1)
         ok = s.fork(); k2(ok, res)
         f = s.fork(); setG(f, inner_raised=BoolVal(True)); K2['exc'](f, raise_any(f, 'BaseException'))
-    ex = Exec({'inspect.isawaitable': lambda ex_, st_, e, r, a, kw, k, K: k(st_, PyBool(is_aw))})
+    is_coro = Bool('argument_is_a_native_coroutine_object')          # a Future, a Task, an object with __await__ are awaitable but no coroutine objects
+    h_coro = lambda ex_, st_, e, r, a, kw, k, K: k(st_, PyBool(And(is_aw, is_coro)))
+    ex = Exec({'inspect.isawaitable': lambda ex_, st_, e, r, a, kw, k, K: k(st_, PyBool(is_aw)), 'inspect.iscoroutine': h_coro, 'asyncio.iscoroutine': h_coro, 'iscoroutine': h_coro})
     st = State(); st.ghost = dict(awaits=IntVal(0), inner_raised=BoolVal(False))
     n = [0]
     def run_case(aw):
@@ -27,11 +29,11 @@ def generate(src):
         def ret(s2, v):
             n[0] += 1
             if isinstance(v, Tok):
-                oblige(s2, "maybe_awaitable/post: an awaitable is awaited exactly once and its result returned  [C02/C10/C16]", BoolVal(False)); return
-            if aw: oblige(s2, "maybe_awaitable/post: an awaitable is awaited exactly once and its result returned  [C02/C10/C16]", And(s2.ghost['awaits'] == 1, to_val(v) == res))
-            else: oblige(s2, "maybe_awaitable/post: a plain value is returned unchanged, nothing is awaited  [C02/C10/C16]", And(s2.ghost['awaits'] == 0, to_val(v) == arg))
+                oblige(s2, "maybe_awaitable/post: an awaitable is awaited exactly once and its result returned  [C01/C02/C03/C05/C06/C07/C10/C12/C15/C16]", BoolVal(False)); return
+            if aw: oblige(s2, "maybe_awaitable/post: an awaitable is awaited exactly once and its result returned  [C01/C02/C03/C05/C06/C07/C10/C12/C15/C16]", And(s2.ghost['awaits'] == 1, to_val(v) == res))
+            else: oblige(s2, "maybe_awaitable/post: a plain value is returned unchanged, nothing is awaited  [C01/C02/C03/C05/C06/C07/C10/C12/C15/C16]", And(s2.ghost['awaits'] == 0, to_val(v) == arg))
             reach(s2, f"maybe_awaitable/reach@return#{n[0]}")
-        def exc(s2, x): oblige(s2, "maybe_awaitable/raises: only what the awaited value raises  [C02/C10/C16]", And(BoolVal(aw), s2.ghost['inner_raised'], s2.ghost['awaits'] == 1))
+        def exc(s2, x): oblige(s2, "maybe_awaitable/raises: only what the awaited value raises  [C01/C02/C03/C05/C06/C07/C10/C12/C15/C16]", And(BoolVal(aw), s2.ghost['inner_raised'], s2.ghost['awaits'] == 1))
         ex.run(fd, s, ret, exc)
     run_case(True); run_case(False)
     return {}
